@@ -105,10 +105,22 @@ def discover(facts):
         return None
 
     free = lambda f: not f.get("impl") and f.get("hir")
+    # --- types.rs first: the pub(crate) shift/grow/shrink helpers of DiffOp, recognised by their net effect on the op
+    # (other roles are described in terms of calls to them)
+    alias = {}
+    try:
+        pre = _diffop_helpers(facts, fns, spaths)
+        out += pre
+        alias = dict(pre)
+    except Exception:
+        pass
+
+    def calls(f, suffix):
+        return any(alias.get(p, p).endswith(suffix) for p in _callee_paths(f))
     # --- compact.rs
     comp = [f for f in by_mod.get("algorithms::compact", []) if free(f)]
-    up = pick_fn("algorithms::compact::shift_diff_ops_up", [f for f in comp if _calls(f, "DiffOp::shift_left") and _calls(f, "DiffOp::tag")])
-    down = pick_fn("algorithms::compact::shift_diff_ops_down", [f for f in comp if _calls(f, "DiffOp::shift_right") and _calls(f, "DiffOp::tag")])
+    up = pick_fn("algorithms::compact::shift_diff_ops_up", [f for f in comp if calls(f, "DiffOp::shift_left") and calls(f, "DiffOp::tag")])
+    down = pick_fn("algorithms::compact::shift_diff_ops_down", [f for f in comp if calls(f, "DiffOp::shift_right") and calls(f, "DiffOp::tag")])
     if up and down:
         both = {_short(up["path"]), _short(down["path"])}
         pick_fn("algorithms::compact::cleanup_diff_ops", [f for f in comp if f is not up and f is not down and both <= _callee_paths(f)])
@@ -174,11 +186,6 @@ def discover(facts):
             [f for f in ds if _out(f) == "bool" and len(ins(f)) == 1 and ins(f)[0].startswith("std::option::Option<") and "Instant" in ins(f)[0]])
     pick_fn("deadline_support::duration_to_deadline",
             [f for f in ds if _out(f).startswith("std::option::Option<") and "Instant" in _out(f) and len(ins(f)) == 1 and "Duration" in ins(f)[0]])
-    # --- types.rs: the pub(crate) shift/grow/shrink helpers of DiffOp, recognised by their net effect on the op
-    try:
-        out += _diffop_helpers(facts, fns, spaths)
-    except Exception:
-        pass
     # --- myers.rs: split_at
     pick_fn("algorithms::myers::split_at", [f for f in my if _out(f) == "(std::ops::Range<usize>,std::ops::Range<usize>)"])
     # --- udiff.rs: the missing-newline marker
